@@ -116,6 +116,7 @@ type jsonType interface {
 	removeFromNodeMap(j jsonType)
 	getTargetByPaths(paths []string) (jsonType, errors.OrdaError)
 	getTargetFromPatch(path string) (jsonType, string, errors.OrdaError)
+	getTargetFromPatchAt(start jsonType, path string) (jsonType, string, errors.OrdaError)
 	isGarbage() bool
 	funeral(j jsonType, ts *model.Timestamp)
 	createJSONType(parent jsonType, v interface{}, ts *model.Timestamp) jsonType
@@ -213,7 +214,12 @@ func (its *jsonPrimitive) isGarbage() bool {
 }
 
 func (its *jsonPrimitive) getTargetByPaths(paths []string) (jsonType, errors.OrdaError) {
-	var node jsonType = its.getRoot()
+	return its.getTargetByPathsAt(its.getRoot(), paths)
+}
+
+// getTargetByPathsAt walks the path from the given node.
+func (its *jsonPrimitive) getTargetByPathsAt(start jsonType, paths []string) (jsonType, errors.OrdaError) {
+	var node = start
 	for _, s := range paths {
 
 		switch node.getType() {
@@ -242,6 +248,12 @@ func (its *jsonPrimitive) getTargetByPaths(paths []string) (jsonType, errors.Ord
 }
 
 func (its *jsonPrimitive) getTargetFromPatch(path string) (jsonType, string, errors.OrdaError) {
+	return its.getTargetFromPatchAt(its.getRoot(), path)
+}
+
+// getTargetFromPatchAt resolves the path of a patch operation from the node the patch was computed against: the paths
+// of a patch made for a nested document (PatchByJSON on a handle) are relative to that document, not to the root.
+func (its *jsonPrimitive) getTargetFromPatchAt(start jsonType, path string) (jsonType, string, errors.OrdaError) {
 	paths := strings.Split(path, "/")
 
 	if len(paths) < 2 {
@@ -255,7 +267,7 @@ func (its *jsonPrimitive) getTargetFromPatch(path string) (jsonType, string, err
 	key := paths[len(paths)-1]
 	paths = paths[1 : len(paths)-1]
 
-	target, err := its.getTargetByPaths(paths)
+	target, err := its.getTargetByPathsAt(start, paths)
 	if err != nil {
 		return nil, "", err
 	}
